@@ -41,8 +41,8 @@ VARIABLES t,       \* index of the trace being validated
 vars == <<t, l, S, bad, verdict>>
 
 Tr == Traces[t]
-R == Tr.R                 \* radius of the box the histories live in
-B == Tr.R + 2             \* radius of the box on which the exported meaning is compared with S
+R == atoi(IOEnv.EXACT_R)  \* radius of the box the histories live in (every trace carries the same value: WellFormed)
+B == R + 2                \* radius of the box on which the exported meaning is compared with S
 NV == Tr.nv
 Regs == 1..Tr.nregs
 Doms == DOMAIN Tr.obs
@@ -52,8 +52,13 @@ AllLangs == {"itv", "zone", "oct"}
 
 RECURSIVE BoxOf(_, _)
 BoxOf(n, rad) == IF n = 0 THEN {<<>>} ELSE {Append(s, v) : s \in BoxOf(n - 1, rad), v \in (-rad)..rad}
-BoxR == BoxOf(NV, R)
-BoxB == BoxOf(NV, B)
+\* constant-level definitions: TLC evaluates them once
+BoxR1 == BoxOf(1, R)  BoxR2 == BoxOf(2, R)  BoxR3 == BoxOf(3, R)
+BoxB1 == BoxOf(1, B)  BoxB2 == BoxOf(2, B)  BoxB3 == BoxOf(3, B)
+BoxRn(n) == CASE n = 1 -> BoxR1 [] n = 2 -> BoxR2 [] n = 3 -> BoxR3 [] OTHER -> BoxOf(n, R)
+BoxBn(n) == CASE n = 1 -> BoxB1 [] n = 2 -> BoxB2 [] n = 3 -> BoxB3 [] OTHER -> BoxOf(n, B)
+BoxR == BoxRn(NV)
+BoxB == BoxBn(NV)
 
 ----------------------------------------------------------------------------
 (* the constraint languages.  A linear form is <<a, i, b, j>> meaning a*v_i + b*v_j  (b = 0: unary) *)
@@ -85,6 +90,7 @@ LangLeq(H, L) == H = L \/ H = "itv" \/ L = "oct"
 
 (* every history must really be inside its language: checked, not assumed *)
 WellFormed ==
+  /\ Tr.R = R
   /\ \A L \in Langs : LangLeq(Tr.lang, L)
   /\ \A k \in DOMAIN Tr.steps :
        LET st == Tr.steps[k] IN
@@ -120,6 +126,18 @@ ItvSub(a, b) ==      \* interval a is included in interval b
      /\ (b[1] = 1 => (a[1] = 1 /\ a[2] >= b[2]))
      /\ (b[3] = 1 => (a[3] = 1 /\ a[4] <= b[4]))
 
+(* UpperGamma(o) restricted to the comparison box:  {p \in BoxB : InGamma(p, o)}  (module Gamma), enumerated
+   cheaply: the interval part of InGamma selects a product of ranges, the constraints filter it.
+   (c12.py transports o.disj = <<<<>>>>, i.e. true: intervals/zones/octagons export no disjunctions.) *)
+Lo(i) == IF i[1] = 1 /\ i[2] > -B THEN i[2] ELSE -B
+Hi(i) == IF i[3] = 1 /\ i[4] < B THEN i[4] ELSE B
+Cand(o) ==
+  CASE NV = 1 -> {<<a>> : a \in Lo(o.itv[1])..Hi(o.itv[1])}
+    [] NV = 2 -> {<<a, b>> : a \in Lo(o.itv[1])..Hi(o.itv[1]), b \in Lo(o.itv[2])..Hi(o.itv[2])}
+    [] NV = 3 -> {<<a, b, c>> : a \in Lo(o.itv[1])..Hi(o.itv[1]), b \in Lo(o.itv[2])..Hi(o.itv[2]), c \in Lo(o.itv[3])..Hi(o.itv[3])}
+    [] OTHER  -> {p \in BoxB : \A i \in 1..NV : InItv(p[i], o.itv[i])}
+Meaning(o) == IF o.bot = 1 THEN {} ELSE {p \in Cand(o) : AllHold(o.csts, p)}
+
 (* exact-mode judgement of a domain of language L: rec = its recorded outcome, Z = S'[L] *)
 Judge(st, rec, Z) ==
   IF st.op = "leq" THEN
@@ -138,8 +156,7 @@ Judge(st, rec, Z) ==
   ELSE LET X == Z[st.r]  o == rec.o IN
        IF o.bot = 1 /\ X # {} THEN "bottom-but-satisfiable"
        ELSE IF o.bot = 0 /\ X = {} THEN "unsatisfiable-but-not-bottom"
-       ELSE IF \E s \in X : ~InGamma(s, o) THEN "state-not-described"
-       ELSE IF \E p \in BoxB : InGamma(p, o) /\ p \notin X THEN "meaning-not-exact"
+       ELSE IF Meaning(o) # X THEN (IF \E s \in X : ~InGamma(s, o) THEN "state-not-described" ELSE "meaning-not-exact")
        ELSE IF X # {} /\ \E i \in 1..NV :
                  LET vals == {s[i] : s \in X} IN o.itv[i] # <<1, MinOf(vals), 1, MaxOf(vals)>>
             THEN "at-not-tightest-bounds"
@@ -151,7 +168,7 @@ WitnessOf(st, rec, Z) ==
   ELSE IF st.op = "entails" THEN (IF \E s \in Z[st.r] : ~Holds(st.c, s) THEN CHOOSE s \in Z[st.r] : ~Holds(st.c, s) ELSE <<>>)
   ELSE IF st.op = "isbot" THEN (IF Z[st.r] # {} THEN CHOOSE s \in Z[st.r] : TRUE ELSE <<>>)
   ELSE IF \E s \in Z[st.r] : ~InGamma(s, rec.o) THEN CHOOSE s \in Z[st.r] : ~InGamma(s, rec.o)
-  ELSE IF \E p \in BoxB : InGamma(p, rec.o) /\ p \notin Z[st.r] THEN CHOOSE p \in BoxB : InGamma(p, rec.o) /\ p \notin Z[st.r]
+  ELSE IF \E p \in Meaning(rec.o) : p \notin Z[st.r] THEN CHOOSE p \in Meaning(rec.o) : p \notin Z[st.r]
   ELSE <<>>
 
 (* lift-mode judgement of domain d (a lifting): never looser than its base domain(s) *)
@@ -178,7 +195,7 @@ KnownFor(dom, st, why) == {k \in DOMAIN KnownSigs : SigMatches(KnownSigs[k].sig,
 
 Init == /\ t \in DOMAIN Traces
         /\ l = 0
-        /\ S = [L \in AllLangs |-> [r \in 1..Traces[t].nregs |-> BoxOf(Traces[t].nv, Traces[t].R)]]
+        /\ S = [L \in AllLangs |-> [r \in 1..Traces[t].nregs |-> BoxRn(Traces[t].nv)]]
         /\ bad = {}
         /\ verdict = [d \in DOMAIN Traces[t].obs |-> "ok"]
 
